@@ -83,7 +83,14 @@ def toFloat (parse : List Nat → Option Nat) : Value → R Value
     -- `timestamp_nanos_opt()`: `None` outside the `i64` range
     if -9223372036854775808 ≤ ns ∧ ns ≤ 9223372036854775807 then
       .ok (.float (orZero (div (ofInt ns) e9Bits)))
-    else .err
+    else
+      -- (was an `OutOfRange` error before the fix) seconds and the fraction converted separately:
+      -- `timestamp() as f64 + f64::from(timestamp_subsec_nanos()) / 1e9`
+      -- (`timestamp()` = floor, `timestamp_subsec_nanos()` = the non-negative remainder)
+      .ok (.float (orZero
+        (match div (ofInt (ns % 1000000000)) e9Bits with
+         | some q => add (ofInt (ns / 1000000000)) q
+         | none => none)))
   | .bytes b => bytesToFloat parse b
   | _ => .err
 
